@@ -27,9 +27,9 @@ def label_bearers(mc):
     return out
 
 
-def sc_trial(V, table="e", n=2, default="none", molecular=False, with_disp=True, check=False):
-    info = f"{table}:n={n}:default={default}:mol={molecular}:disp={with_disp}"
-    coin = table != "e"
+def sc_trial(V, table="e", n=2, default="none", molecular=False, with_disp=True, check=False, warm=0):
+    info = f"{table}:n={n}:default={default}:mol={molecular}:disp={with_disp}" + (f":after-{warm}-earlier-trial(s)" if warm else "")
+    coin = table != "e" or warm > 0  # (histories: the verdicts are free coins, the shipped criteria is C02's subject)
     mc, atoms, pes, move, labels, exch = c03.build(V, "GrandCanonical", table, n, (), check, "caching", molecular, False, coin)
     if with_disp:
         from quansino.moves.displacement import DisplacementMove
@@ -53,6 +53,18 @@ def sc_trial(V, table="e", n=2, default="none", molecular=False, with_disp=True,
     bearers = label_bearers(mc)
     for _, m in bearers:
         m.default_label = dl
+    for _ in range(warm):
+        # an earlier trial of any outcome (the judged trial then starts from a state a real history produced, with
+        # whatever the earlier trial left behind in the moves and the context)
+        try:
+            _, v0 = mcsim.run_trial(mc)
+        except (symx.PathAbort, symx.BoundHit, symx.Unsupported, symx.ReplayMismatch):
+            raise
+        except Exception as ex:  # noqa: BLE001
+            V.reach("raised:" + type(ex).__name__)
+            return
+        V.reach("earlier-" + {None: "failed", False: "rejected", True: "accepted"}[None if v0 is None else bool(v0)])
+        atoms.set_tags(np.arange(10, 10 + len(atoms)))  # fresh ghost identities (inserted atoms carried the template's tag)
     old = {id(m): np.array(m.labels).copy() for _, m in bearers}
     tags0 = [int(t) for t in atoms.get_tags()]
     n0 = mc.context.number_of_exchange_particles
@@ -136,11 +148,14 @@ def _plan(tier):
     P.append(("trial", dict(table="e", n=2, default="none", molecular=False, with_disp=True, check=True), R + ("failed",)))
     P.append(("trial", dict(table="e", n=2, default="five", molecular=False, with_disp="nested"), R))
     P.append(("trial", dict(table="e", n=2, default="none", molecular=False, with_disp="regroup"), R))
+    P.append(("trial", dict(table="e", n=2, default="none", molecular=False, with_disp=True, warm=1), R + ("earlier-accepted", "earlier-rejected")))
     P.append(("trial", dict(table="swap", n=2, default="five", molecular=False, with_disp=True), ("rejected", "accepted")))
     P.append(("trial", dict(table="swap", n=3, default="none", molecular=True, with_disp=True), ("rejected", "accepted")))
     if not q:
         P.append(("trial", dict(table="e", n=3, default="zero", molecular=True, with_disp=True), R))
         P.append(("trial", dict(table="e", n=3, default="none", molecular=False, with_disp="regroup"), R))
+        P.append(("trial", dict(table="e", n=2, default="zero", molecular=False, with_disp="regroup", warm=1), R + ("earlier-accepted", "earlier-rejected")))
+        P.append(("trial", dict(table="e+e", n=2, default="none", molecular=False, with_disp=True, warm=1), R + ("earlier-accepted",)))
         P.append(("trial", dict(table="e2", n=3, default="five", molecular=False, with_disp=True), R))
         P.append(("trial", dict(table="e+e", n=3, default="none", molecular=True, with_disp=False), R))
         P.append(("trial", dict(table="e", n=3, default="none", molecular=False, with_disp=True), R))
@@ -152,7 +167,7 @@ def run(rep: Report):
     tier = rep.tier
     opts = {"prove_timeout_ms": 10000, "fork_timeout_ms": 2000, "seed": rep.seed, "scenario_wall_s": 240 if tier == "quick" else 1200}
     run_plan(rep, _plan(tier), SCENARIOS, opts)
-    rep.bounds = {"atoms before the trial": "2 (quick) / 3", "labels": "every labeling in [-1,1]^n / [-1,2]^n, diatomic species", "default_label": "None, 0, -1, 5", "tables": "e (+ a second label-bearing displacement move), e*2, e+e", "trials": "1 (inductive step)"}
+    rep.bounds = {"atoms before the trial": "2 (quick) / 3", "labels": "every labeling in [-1,1]^n / [-1,2]^n, diatomic species", "default_label": "None, 0, -1, 5", "tables": "e (+ a second label-bearing displacement move), e*2, e+e", "trials": "1 (inductive step); 2-trial histories with any first outcome"}
     rep.assumptions = ["a particle = the atoms sharing one non-negative label in that move", "atoms carry ghost identities in `tags` (template atoms have tag 0)", "composite exchange tables use a coin criteria (the shipped criteria has no formula for |delta|>1)"]
     rep.stubs = ["SymAtoms, SymRNG, ModelCalc(caching) over an uninterpreted PES", "CoinCriteria"]
     rep.outside = ["|delta|>2 per trial", "histories of several trials directly (covered inductively: alignment + counter are re-established after every trial)"]
